@@ -10,8 +10,12 @@
   F-C05a (start timer at `now = end_time`), F-C05b (flexible downtime on a never-checked checkable) and
   F-C05e (trigger time recorded before `start_time`) are repaired in /repo (eead572, 40d44b0, 2efb740);
   `start_once`, `flexible_trigger` and `trigger_not_before_start` are full theorems.
+
+  `guards_match_source` ties the model's `isTriggered` / `isInEffect` / `isExpired` / `canBeTriggered` to the text of
+  lib/icinga/downtime.cpp (translated by gen/c05_guards.py on every run).
 -/
-import IcingaProofs.C05.Whole
+import IcingaProofs.C05.EndOnce
+import IcingaProofs.C05.SourceTie
 
 namespace Icinga.C05
 
@@ -152,6 +156,31 @@ theorem end_once (ops : List Op) (st : St) (h0 : ∀ d ∈ st.dts, PEnd d) :
     simp only [removeDt]
     split <;> simp
 
+/-! ### DowntimeStart only when the downtime takes effect; DowntimeEnd exactly once -/
+
+/-- **start_only_on_effect.**  In the last operation of every well-formed run from a never-checked checkable, a
+    DowntimeStart notification request is made for a downtime (an existing one, or the one the operation creates)
+    only if the downtime takes effect in that very operation: before it, it had not taken effect (`IsTriggered`
+    false: no trigger time), the operation passes its `TriggerDowntime` guard (`OnDowntimeTriggered` fires),
+    afterwards its trigger time is set, and the instant lies inside its window `[start, end]`.  Together with
+    `start_once` and the `started_when_triggered` clause: one DowntimeStart, when it takes effect. -/
+theorem start_only_on_effect (k : Kind) (ops : List Op) (op : Op) (hw : WF 990 (ops ++ [op])) :
+    ∀ d ∈ preModel (run (initSt k) ops) op, ∀ d' ∈ (step (run (initSt k) ops) op).1.dts, d'.id = d.id →
+      d.starts < d'.starts →
+      isTriggered op.now d = false ∧ d.trigEv < d'.trigEv ∧ d'.trigger ≠ 0 ∧ d.start ≤ op.now ∧ op.now ≤ d.fin := by
+  obtain ⟨T, sp, h, hT, hop⟩ := tinv_run_last ops (specInit k) (initSt k) 990 (tinv_init k) op hw
+  exact start_effect_step h op hT hop
+
+/-- **end_exactly_once_run.**  In every state reached by a well-formed run from a never-checked checkable: a
+    downtime that still exists has caused no DowntimeEnd request; a downtime that is gone (removed by a user, by
+    its owner, or expired) has caused exactly one if it had taken effect (its trigger time was set — and, in a
+    well-formed run, reached) and the checkable was not paused when it went, and none otherwise. -/
+theorem end_exactly_once_run (k : Kind) (ops : List Op) (hw : WF 990 ops) :
+    ∀ d ∈ (run (initSt k) ops).dts,
+      (d.removed = false → d.ends = 0) ∧
+      (d.removed = true → d.ends = if 0 < d.trigger ∧ d.quiet = false then 1 else 0) :=
+  xend_run ops (specInit k) (initSt k) 990 (tinv_init k) (fun d hd => by simp [initSt] at hd) hw
+
 /-! ### Expired downtimes are removed by the timers -/
 
 /-- **expired_removed.**  After the timers have fired at `now`, no existing downtime has a due cleanup
@@ -283,6 +312,32 @@ theorem started_counterexample :
     decide
   · decide
 
+/-- **flexible_started_run.**  In every state reached by a well-formed run from a never-checked checkable in which
+    the checkable is never paused, a flexible downtime has caused exactly one DowntimeStart notification request if
+    it has taken effect (its trigger time is set), and none otherwise.  (The run-level form of `started_partial`
+    for flexible downtimes; for fixed ones the statement is false of the code: `started_counterexample`.) -/
+theorem flexible_started_run (k : Kind) (ops : List Op) (hw : WF 990 ops) (hnp : ∀ op ∈ ops, noPause op = true) :
+    ∀ d ∈ (run (initSt k) ops).dts, d.fixed = false →
+      (d.trigger ≠ 0 → d.starts = 1) ∧ (d.trigger = 0 → d.starts = 0) := by
+  have h0 : SInv 990 (initSt k) := by
+    refine ⟨by simp [initSt], by simp [initSt], ?_⟩
+    intro d hd; simp [initSt] at hd
+  obtain ⟨T', _, _, hall⟩ := sinv_run ops 990 (initSt k) h0 hw
+  have hn := np_run ops (initSt k) ⟨rfl, fun d hd => by simp [initSt] at hd⟩ hnp
+  intro d hd hf
+  have hi := hall d hd
+  constructor
+  · intro ht
+    have := (hn.2 d hd).2 hf ht
+    have := hi.2.2.2.2.1
+    omega
+  · intro ht
+    have h1 := hi.2.2.2.2.1
+    have h2 := hi.2.2.2.2.2
+    by_cases hs : d.starts = 1
+    · have := h2 hs; omega
+    · omega
+
 /-! ### Flexible trigger -/
 
 /-- **flexible_trigger.**  A flexible downtime takes effect at the first non-OK result, or on an already
@@ -383,12 +438,34 @@ example : ((run (initSt .host) [.result 0 1000 1000, .add ⟨1, true, 1000, 1030
     flexible trigger (exact time), trigger cascade, start once, DowntimeStart for every flexible downtime
     that took effect (`started_when_triggered`), fixed started in window, end once, no DowntimeEnd of a
     flexible downtime without its DowntimeStart (`end_has_start`), removed event, expired removed, owner
-    protected, recorded trigger time not before start (`trigger_not_before_start`, F-C05e repaired by 2efb740).
+    protected, recorded trigger time not before start (`trigger_not_before_start`, F-C05e repaired by 2efb740),
+    DowntimeStart only in the operation in which the downtime takes effect (`start_only_on_effect`).
     The full statement `specTrace (specInit k) (trace (initSt k) ops) = none` is false of the code: F-C05c
     violates `fixed_started_when_triggered` and `fixed_end_has_start` (see `started_counterexample`). -/
 theorem model_trace_meets_spec_partial (k : Kind) (ops : List Op) (hw : WF 990 ops) :
     specTraceM coreMask (specInit k) (trace (initSt k) ops) = none :=
   trace_core ops (specInit k) (initSt k) 990 (tinv_init k) hw
+
+/-! ### The window predicates of the model are the ones of the source text -/
+
+/-- **guards_match_source.**  The four functions that gen/c05_guards.py translates, on every run of the check, from
+    the bodies of `Downtime::IsTriggered`, `IsInEffect`, `IsExpired` and `CanBeTriggered` in lib/icinga/downtime.cpp
+    (IcingaProofs/Gen/DowntimeGuards.lean) are equal, at every instant and for every downtime, to the hand-written
+    predicates of the model that all the theorems of this file are about.  (Times are integers on both sides.) -/
+theorem guards_match_source (now : Int) (d : Dt) :
+    Icinga.Gen.DowntimeGuards.isTriggeredSrc now d = isTriggered now d ∧
+    Icinga.Gen.DowntimeGuards.isInEffectSrc now d = isInEffect now d ∧
+    Icinga.Gen.DowntimeGuards.isExpiredSrc now d = isExpired now d ∧
+    Icinga.Gen.DowntimeGuards.canBeTriggeredSrc now d = canBeTriggered now d :=
+  ⟨isTriggered_src now d, isInEffect_src now d, isExpired_src now d, canBeTriggered_src now d⟩
+
+/-- … and they are not trivial: at 1015 the translated predicates tell a fixed downtime [1010, 1020) triggered at
+    1010 in effect and not triggerable, and the same downtime at 1020 neither in effect nor expired. -/
+example :
+    let d : Dt := { (default : Dt) with fixed := true, start := 1010, fin := 1020, trigger := 1010 }
+    Icinga.Gen.DowntimeGuards.isInEffectSrc 1015 d = true ∧ Icinga.Gen.DowntimeGuards.canBeTriggeredSrc 1015 d = false ∧
+    Icinga.Gen.DowntimeGuards.isInEffectSrc 1020 d = false ∧ Icinga.Gen.DowntimeGuards.isExpiredSrc 1020 d = false ∧
+    Icinga.Gen.DowntimeGuards.isExpiredSrc 1021 d = true := by decide
 
 /-! ### Non-vacuity -/
 
@@ -461,5 +538,27 @@ example : specTraceM coreMask (specInit .service)
 
 /-- … and accepts the model's own trace of the chained scenario. -/
 example : specTrace (specInit .host) (trace (initSt .host) (exampleOps ++ [.pump 1030 true])) = none := by decide
+
+/-- `start_only_on_effect`: in the pump at 1010 of the chained scenario both downtimes request DowntimeStart … -/
+example : ∃ d ∈ preModel (run (initSt .host) (exampleOps.take 3)) (.pump 1010 true),
+    ∃ d' ∈ (step (run (initSt .host) (exampleOps.take 3)) (.pump 1010 true)).1.dts, d'.id = d.id ∧ d.starts < d'.starts := by
+  decide
+
+/-- … and the specification rejects a DowntimeStart request for a fixed downtime created before its window. -/
+example : specTrace (specInit .service)
+    [(.add ⟨1, true, 1010, 1020, 0, 0, false⟩ 1001, ⟨1, 0, false, [(1, 0)], [(1, 1, 1)]⟩)]
+    = some .startOnlyOnEffect := by decide
+
+/-- `end_exactly_once_run`: a downtime removed before it took effect has caused no DowntimeEnd, one removed
+    after it took effect exactly one. -/
+example : WF 990 [.add ⟨1, false, 1010, 1020, 5, 0, false⟩ 1000, .remove 1 true 1005] ∧
+    ((run (initSt .host) [.add ⟨1, false, 1010, 1020, 5, 0, false⟩ 1000, .remove 1 true 1005]).dts.map
+      (fun d => (d.removed, d.trigger, d.ends))) = [(true, 0, 0)] ∧
+    ((run (initSt .host) (exampleOps ++ [.remove 1 true 1012])).dts.map (fun d => (d.id, d.removed, d.ends))) =
+      [(1, true, 1), (2, false, 0)] := by decide
+
+/-- `flexible_started_run`: a run without pausing in which a flexible downtime takes effect. -/
+example : (∀ op ∈ ceEarlyResult, noPause op = true) ∧ WF 990 ceEarlyResult ∧
+    ∃ d ∈ (run (initSt .service) ceEarlyResult).dts, d.fixed = false ∧ d.trigger ≠ 0 := by decide
 
 end Icinga.C05
